@@ -6,9 +6,20 @@
 (* sends events and finally done.invoke (when it reaches a top-level final);*)
 (* leaving the state cancels the child.  All relative orders of child       *)
 (* events, child completion and parent-side cancellation are explored.      *)
+(*                                                                         *)
+(* Filter selects how the parent recognises events of cancelled children:   *)
+(*   "session"  by the session that sent the event (the implementation      *)
+(*              after repair d0e4562: origin of the event);                 *)
+(*   "invokeid" by the invoke id, as the implementation did before: the id  *)
+(*              is marked cancelled on exit and unmarked when the state is  *)
+(*              re-entered; while a child with that id is active, events of *)
+(*              other sessions carrying the id are dropped.  TLC refutes    *)
+(*              NothingAfterCancel for it with two entries of the state:    *)
+(*              a late event of the first child arrives after the second    *)
+(*              child has finished.                                        *)
 (***************************************************************************)
 EXTENDS Naturals, Sequences, FiniteSets, TLC
-CONSTANTS MaxChildEv, MaxEnter
+CONSTANTS MaxChildEv, MaxEnter, Filter
 VARIABLES inState,     \* parent is in the invoking state
           pending,     \* state entered in the current macrostep, invoke not yet executed
           gen,         \* generation counter of invocations (each start is a new child)
@@ -18,40 +29,54 @@ VARIABLES inState,     \* parent is in the invoking state
           processed,   \* sequence of [g, kind] the parent processed
           cancelledGen,\* generations the parent has cancelled
           starts,      \* number of children started
-          enters       \* number of times the state was entered and stayed until macrostep end
-vars == <<inState, pending, gen, child, sent, pq, processed, cancelledGen, starts, enters>>
+          enters,      \* number of times the state was entered and stayed until macrostep end
+          active,      \* generation registered under the invoke id in the parent's table of children (0 = none)
+          idCancelled, \* the invoke id is marked as cancelled (Filter = "invokeid")
+          lateSent     \* events sent by children after the parent cancelled them (they have not seen the cancel yet)
+vars == <<inState, pending, gen, child, sent, pq, processed, cancelledGen, starts, enters, active, idCancelled, lateSent>>
 Init == inState = FALSE /\ pending = FALSE /\ gen = 0 /\ child = "none" /\ sent = 0 /\ pq = <<>> /\ processed = <<>>
-        /\ cancelledGen = {} /\ starts = 0 /\ enters = 0
+        /\ cancelledGen = {} /\ starts = 0 /\ enters = 0 /\ active = 0 /\ idCancelled = FALSE /\ lateSent = 0
 Enter == /\ ~inState /\ enters + starts < MaxEnter
          /\ inState' = TRUE /\ pending' = TRUE
-         /\ UNCHANGED <<gen, child, sent, pq, processed, cancelledGen, starts, enters>>
+         /\ UNCHANGED <<gen, child, sent, pq, processed, cancelledGen, starts, enters, active, idCancelled, lateSent>>
 \* entered and exited within the same macrostep: no invoke
 LeaveTransient == /\ inState /\ pending
                   /\ inState' = FALSE /\ pending' = FALSE
-                  /\ UNCHANGED <<gen, child, sent, pq, processed, cancelledGen, starts, enters>>
+                  /\ UNCHANGED <<gen, child, sent, pq, processed, cancelledGen, starts, enters, active, idCancelled, lateSent>>
 MacroEnd == /\ inState /\ pending
             /\ pending' = FALSE /\ gen' = gen + 1 /\ child' = "running" /\ sent' = 0
             /\ starts' = starts + 1 /\ enters' = enters + 1
-            /\ UNCHANGED <<inState, pq, processed, cancelledGen>>
+            /\ active' = gen + 1 /\ idCancelled' = FALSE
+            /\ UNCHANGED <<inState, pq, processed, cancelledGen, lateSent>>
 ChildSend == /\ child = "running" /\ sent < MaxChildEv
              /\ sent' = sent + 1 /\ pq' = Append(pq, [g |-> gen, kind |-> "ev"])
-             /\ UNCHANGED <<inState, pending, gen, child, processed, cancelledGen, starts, enters>>
+             /\ UNCHANGED <<inState, pending, gen, child, processed, cancelledGen, starts, enters, active, idCancelled, lateSent>>
 ChildFinal == /\ child = "running"
               /\ child' = "final" /\ pq' = Append(pq, [g |-> gen, kind |-> "done"])
-              /\ UNCHANGED <<inState, pending, gen, sent, processed, cancelledGen, starts, enters>>
+              /\ UNCHANGED <<inState, pending, gen, sent, processed, cancelledGen, starts, enters, active, idCancelled, lateSent>>
+\* a cancelled child whose thread has not yet processed the cancel event still sends
+LateSend == /\ lateSent < 1
+            /\ \E g \in cancelledGen : pq' = Append(pq, [g |-> g, kind |-> "ev"])
+            /\ lateSent' = lateSent + 1
+            /\ UNCHANGED <<inState, pending, gen, child, sent, processed, cancelledGen, starts, enters, active, idCancelled>>
 DoneSeen == \E k \in DOMAIN processed : processed[k].g = gen /\ processed[k].kind = "done"
 Leave == /\ inState /\ ~pending
          /\ inState' = FALSE
          /\ cancelledGen' = (IF child \in {"running", "final"} /\ ~DoneSeen THEN cancelledGen \cup {gen} ELSE cancelledGen)
          /\ child' = (IF child = "running" THEN "cancelled" ELSE child)
-         /\ UNCHANGED <<pending, gen, sent, pq, processed, starts, enters>>
+         /\ active' = 0 /\ idCancelled' = (IF active # 0 THEN TRUE ELSE idCancelled)
+         /\ UNCHANGED <<pending, gen, sent, pq, processed, starts, enters, lateSent>>
 \* the parent dequeues: events of cancelled invocations are discarded
+Discard(e) == IF Filter = "session" THEN e.g \in cancelledGen
+              ELSE IF active = 0 THEN idCancelled ELSE e.g # active
 Dequeue == /\ pq # <<>> /\ ~pending
            /\ pq' = Tail(pq)
-           /\ processed' = (IF Head(pq).g \in cancelledGen THEN processed
+           /\ processed' = (IF Discard(Head(pq)) THEN processed
                             ELSE Append(processed, [g |-> Head(pq).g, kind |-> Head(pq).kind, late |-> Head(pq).g \in cancelledGen]))
-           /\ UNCHANGED <<inState, pending, gen, child, sent, cancelledGen, starts, enters>>
-Next == Enter \/ LeaveTransient \/ MacroEnd \/ ChildSend \/ ChildFinal \/ Leave \/ Dequeue \/ UNCHANGED vars
+           \* a processed done.invoke removes the child from the table
+           /\ active' = (IF ~Discard(Head(pq)) /\ Head(pq).kind = "done" THEN 0 ELSE active)
+           /\ UNCHANGED <<inState, pending, gen, child, sent, cancelledGen, starts, enters, idCancelled, lateSent>>
+Next == Enter \/ LeaveTransient \/ MacroEnd \/ ChildSend \/ ChildFinal \/ LateSend \/ Leave \/ Dequeue \/ UNCHANGED vars
 Spec == Init /\ [][Next]_vars
 
 InvokeOncePerStableEntry == starts = enters
